@@ -400,6 +400,39 @@ func runC03(c *Ctx) {
 		})
 	})
 	c.Min("C03-R5", 5)
+
+	c.Rule("C03-R6", "what is stored for a block can be read back: the storage and wire codecs of receipts, logs and blocks are symmetric", func() {
+		for _, p := range [][3]string{
+			{"receiptStorageRLP", "(*ReceiptForStorage).EncodeRLP", "(*ReceiptForStorage).DecodeRLP"},
+			{"receiptRLP", "(*Receipt).EncodeRLP", "(*Receipt).DecodeRLP"},
+			{"rlpLog", "(*Log).EncodeRLP", "(*Log).DecodeRLP"},
+			{"rlpStorageLog", "(*LogForStorage).EncodeRLP", "(*LogForStorage).DecodeRLP"},
+			{"extblock", "(*Block).EncodeRLP", "(*Block).DecodeRLP"},
+			{"storageblock", "", "(*StorageBlock).DecodeRLP"},
+		} {
+			c.CodecSymmetryRule("C03-R6", "core/types", p[0], p[1], p[2])
+		}
+	})
+	c.Min("C03-R6", 10)
+
+	c.Rule("C03-R7", "the chain database accessors agree on their keys: per entity, Get reads and Delete removes exactly what Write stores", func() {
+		n := c.DBKeyAgreementRule("C03-R7")
+		c.Ob("C03-R7", "database entity families found", "", n >= 10, fmt.Sprintf("%d", n))
+		// the one-letter table prefixes are pairwise different (two tables under one prefix would overwrite each other)
+		seen := map[string]string{}
+		okP, dP := true, ""
+		for _, v := range []string{"headerPrefix", "blockHashPrefix", "bodyPrefix", "blockReceiptsPrefix", "lookupPrefix", "bloomBitsPrefix"} {
+			init := c18InitCall(c, "core", v)
+			if prev, dup := seen[init]; dup || init == "" {
+				okP, dP = false, v+" and "+prev+" share the initialiser "+init
+			}
+			seen[init] = v
+			c.GlobalNeverReassigned("C03-R7", "core:"+v)
+		}
+		sfx := map[string]bool{c18InitCall(c, "core", "tdSuffix"): true, c18InitCall(c, "core", "numSuffix"): true}
+		c.Ob("C03-R7", "table prefixes (h, H, b, r, l, B) and the t/n suffixes are pairwise distinct", "", okP && len(sfx) == 2, dP)
+	})
+	c.Min("C03-R7", 14)
 }
 
 // storesInto: values stored into (elements of) the allocation.
